@@ -42,6 +42,28 @@ def specs(T):
     for frag in ("out['cn2'] = out['cn'] - out['cn1']", "cnarr['start'].iat[0]", "cnarr['end'].iat[-1]",
                  "cnarr['p_bintest'].max()", "','.join(cnarr['gene'].drop_duplicates())"):
         T.body_contains(S, 'squash_region', frag)
+    # every field squash_region computes (C14_merged_fields models them one by one)
+    for frag in ("region_weight = cnarr['weight'].sum()",
+                 "out['log2'] = np.average(cnarr['log2'], weights=cnarr['weight'])", "out['log2'] = np.mean(cnarr['log2'])",
+                 "out['probes'] = cnarr['probes'].sum() if 'probes' in cnarr else len(cnarr)", "out['weight'] = region_weight",
+                 "out['depth'] = np.average(cnarr['depth'], weights=cnarr['weight'])", "out['depth'] = np.mean(cnarr['depth'])",
+                 "out['baf'] = np.average(cnarr['baf'], weights=cnarr['weight'])", "out['baf'] = np.mean(cnarr['baf'])",
+                 "out['cn'] = weighted_median(cnarr['cn'], cnarr['weight'])", "out['cn'] = np.median(cnarr['cn'])",
+                 "out['cn1'] = weighted_median(cnarr['cn1'], cnarr['weight'])", "out['cn1'] = np.median(cnarr['cn1'])",
+                 "return pd.DataFrame(out)"):
+        T.body_contains(S, 'squash_region', frag)
+    # the columns each filter insists on (C14_consumes: a second ci / sem is refused)
+    T.body_contains(S, 'ci', "@require_column('ci_lo', 'ci_hi')")
+    T.body_contains(S, 'sem', "@require_column('sem')")
+    T.body_contains(S, 'cn', "@require_column('cn')")
+    T.body_contains(S, 'ampdel', "@require_column('cn')")
+    T.body_contains(S, 'require_column', "raise ValueError(msg.format(filtname, *colnames))")
+    # the skeleton of do_call around the filters (C14_do_call composes them with the C01/C02 calling step)
+    for frag in ("outarr = getattr(segfilters, filt)(outarr)", "if purity and purity < 1.0:", "elif method == 'clonal':",
+                 "if method == 'threshold':", "if method != 'none':", "outarr['cn'] = absolutes.round().astype('int')",
+                 "if 'baf' in outarr:", "outarr['cn2'] = outarr['cn'] - outarr['cn1']", "for filt in filters:",
+                 "outarr['log2'] = log2_ratios(outarr, absolutes, ploidy, is_haploid_x_reference, diploid_parx_genome)"):
+        T.body_contains(C, 'do_call', frag)
     T.body_contains(C, 'do_call', "for filt in ('ci', 'sem'):")
     T.body_contains(C, 'do_call', "filters.remove(filt)")
     T.body_contains(D, 'weighted_median', "midpoint = 0.5 * weights.sum()")
